@@ -9,6 +9,7 @@ C20 - rejected or failing invocations never damage source files.
     before write, mid-write}; every conversion step raising).  Afterwards every file must be byte-identical to its
     pre-image or to its fault-free post-image (a file that did not exist may only be absent or complete).
 """
+import ast
 import itertools
 import os
 import shutil
@@ -61,6 +62,10 @@ def argv_cases():
         for out in ("new", "existing"):
             cases.append({"cmd": "gen", "out": out, "tpl": "not_an_identifier", "mapping": "valid", "type": typ})
             cases.append({"cmd": "gen", "out": out, "tpl": True, "mapping": "valid", "type": typ, "prepend": "plain_text"})
+    # the mapping is addressed through an alias that --prepend imports; --imports-from-file makes the prepended symbols known
+    for typ in ("class", "function", "argparse"):
+        for depth in (1, 2, 3):
+            cases.append({"cmd": "gen", "out": "new", "tpl": True, "mapping": "via_alias_depth%d" % depth, "type": typ})
     return [dict(c, part="argv") for c in cases]
 
 
@@ -175,7 +180,8 @@ class C20(core.Check):
                 exc = e
         if root in sys.path:
             sys.path.remove(root)
-        sys.modules.pop("c20_genmod", None)
+        for m in [m for m in sys.modules if m == "c20_genmod" or m.split(".")[0] == "c20_pkg"]:
+            sys.modules.pop(m, None)
         after = snapshot(root)
         facts = {k: (v if not isinstance(v, list) else ",".join(v)) for k, v in case.items() if k != "part"}
         facts.update(part="argv", expected="accepted" if accepted else "rejected", why=why)
@@ -183,6 +189,15 @@ class C20(core.Check):
         if accepted:
             sites.append(site(exc is None, dict(facts, field="accepted_runs_without_error"), fail="internal_error",
                               **(core.exc_obs(exc) if exc is not None else {})))
+            if case["cmd"] == "gen" and exc is None:
+                # the generated module is complete: it parses and defines one <name>Config per entry of the mapping
+                gen_src = after.get("generated.py")
+                try:
+                    defined = [n.name for n in ast.parse(gen_src.decode()).body if isinstance(n, (ast.ClassDef, ast.FunctionDef))] if gen_src is not None else None
+                except SyntaxError:
+                    defined = "does not parse"
+                sites.append(site(defined == ["fplainConfig"], dict(facts, field="generated_module_complete"), fail="generated_module",
+                                  got=defined))
         else:
             nonzero = isinstance(exc, SystemExit) and exc.code not in (0, None) or isinstance(exc, (IOError, OSError))
             if why in ("mapping not importable", "unresolvable address", "generated text does not parse"):
@@ -294,6 +309,22 @@ class C20(core.Check):
             ok, why = False, "no --name-tpl"
         if case["mapping"] == "valid":
             argv += ["--input-mapping", "c20_genmod.MAPPING"]
+        elif case["mapping"].startswith("via_alias_depth"):
+            depth = int(case["mapping"][-1])
+            pkg = os.path.join(root, "c20_pkg")
+            os.makedirs(os.path.join(pkg, "sub", "inner"))
+            with open(os.path.join(pkg, "__init__.py"), "w") as f:
+                f.write("from . import sub\nfrom .sub.inner.leaf import MAPPING\n")
+            with open(os.path.join(pkg, "sub", "__init__.py"), "w") as f:
+                f.write("from . import inner\nfrom .inner.leaf import MAPPING\n")
+            with open(os.path.join(pkg, "sub", "inner", "__init__.py"), "w") as f:
+                f.write("from . import leaf\nfrom .leaf import MAPPING\n")
+            with open(os.path.join(pkg, "sub", "inner", "leaf.py"), "w") as f:
+                f.write(GEN_MOD)
+            with open(os.path.join(root, "imports_src.py"), "w") as f:
+                f.write("from typing import Optional\nimport os\n\nX = 1\n")
+            argv += ["--input-mapping", "c20alias." + "sub.inner."[: {1: 0, 2: 4, 3: 10}[depth]] + "MAPPING",
+                     "--prepend", "import c20_pkg as c20alias\\n", "--imports-from-file", os.path.join(root, "imports_src.py")]
         elif case["mapping"] == "bogus":
             argv += ["--input-mapping", "c20_nonexistent_module.MAPPING"]
             ok, why = False, "mapping not importable"
